@@ -3,7 +3,7 @@
 
 use crate::common::*;
 use crate::simalloc::{self, Event, Refusal};
-use crate::track::{self, Big, Tr, Zt};
+use crate::track::{self, Big, Tr, Wide, Zt};
 use crate::w2_box::BoxClient;
 use crate::w2_ops::*;
 use crate::w2_str::StrPair;
@@ -16,6 +16,7 @@ pub enum Client {
     V32(VecPair<u32, u32>),
     VTr(VecPair<Tr<0>, Tr<1>>),
     VBig(VecPair<Big<0>, Big<1>>),
+    VWide(VecPair<Wide<0>, Wide<1>>),
     VZt(VecPair<Zt<0>, Zt<1>>),
     S(StrPair),
     R(Vec<(usize, usize, u32)>),
@@ -102,6 +103,7 @@ impl<'a> W2<'a> {
             let r = match &self.clients[i] {
                 Client::VTr(p) => p.reachable_live(),
                 Client::VBig(p) => p.reachable_live(),
+                Client::VWide(p) => p.reachable_live(),
                 Client::B(p) => {
                     let mut ids = Vec::new();
                     p.reachable_ids(&mut ids);
@@ -124,6 +126,7 @@ impl<'a> W2<'a> {
                 Client::V32(p) => p.compare().map_err(|e| ("contents-differ", e)),
                 Client::VTr(p) => p.compare().map_err(|e| ("contents-differ", e)),
                 Client::VBig(p) => p.compare().map_err(|e| ("contents-differ", e)),
+                Client::VWide(p) => p.compare().map_err(|e| ("contents-differ", e)),
                 Client::VZt(p) => p.compare().map_err(|e| ("contents-differ", e)),
                 Client::S(p) => p.compare(),
                 Client::R(blocks) => {
@@ -233,6 +236,7 @@ impl<'a> W2<'a> {
             (Client::V32(p), COp::V(o)) => p.exec_copy(bump, o).or_else(|| Some(p.exec(bump, o))),
             (Client::VTr(p), COp::V(o)) => Some(p.exec(bump, o)),
             (Client::VBig(p), COp::V(o)) => Some(p.exec(bump, o)),
+            (Client::VWide(p), COp::V(o)) => Some(p.exec(bump, o)),
             (Client::VZt(p), COp::V(o)) => Some(p.exec(bump, o)),
             (Client::S(p), COp::S(o)) => Some(p.exec(bump, o)),
             (Client::B(p), COp::B(o)) => Some(p.exec(bump, o)),
@@ -375,6 +379,7 @@ pub fn exec_w2(script: &W2Script, focus: Option<&'static str>) -> W2Report {
             ClientKind::Vec(VT::U32) => Client::V32(VecPair::new()),
             ClientKind::Vec(VT::Tr) => Client::VTr(VecPair::new()),
             ClientKind::Vec(VT::Big) => Client::VBig(VecPair::new()),
+            ClientKind::Vec(VT::Wide) => Client::VWide(VecPair::new()),
             ClientKind::Vec(VT::Zt) => Client::VZt(VecPair::new()),
             ClientKind::Str => Client::S(StrPair::new()),
             ClientKind::Raw => Client::R(Vec::new()),
@@ -414,6 +419,7 @@ pub fn exec_w2(script: &W2Script, focus: Option<&'static str>) -> W2Report {
                 Client::V32(p) => p.drop_all(),
                 Client::VTr(p) => p.drop_all(),
                 Client::VBig(p) => p.drop_all(),
+                Client::VWide(p) => p.drop_all(),
                 Client::VZt(p) => p.drop_all(),
                 Client::S(p) => p.drop_all(),
                 Client::R(b) => b.clear(),
